@@ -57,17 +57,18 @@ void h_dispatch_init(void) {
   const carquet_cpu_info_t *c = &cqv_cpu;
 #define CHK4(slot, sc, sse, avx2, avx512) \
   __CPROVER_assert(g_dispatch.slot != NULL, #slot " is non-NULL"); \
-  __CPROVER_assert(g_dispatch.slot == sc || (c->has_sse42 && g_dispatch.slot == sse) || (c->has_avx2 && g_dispatch.slot == avx2) || (c->has_avx512f && g_dispatch.slot == avx512), #slot " is a kernel of a level the consulted flags allow"); \
-  __CPROVER_assert(g_dispatch.slot == (c->has_avx512f ? avx512 : c->has_avx2 ? avx2 : c->has_sse42 ? sse : sc), #slot " override order scalar < SSE < AVX2 < AVX-512");
+  __CPROVER_assert(g_dispatch.slot == sc || (SPEC_CPU_OK_SSE(c) && g_dispatch.slot == sse) || (SPEC_CPU_OK_AVX2(c) && g_dispatch.slot == avx2) || (SPEC_CPU_OK_AVX512(c) && g_dispatch.slot == avx512), #slot " is a kernel of a level the CPU supports completely"); \
+  __CPROVER_assert(g_dispatch.slot == (SPEC_CPU_OK_AVX512(c) ? avx512 : SPEC_CPU_OK_AVX2(c) ? avx2 : SPEC_CPU_OK_SSE(c) ? sse : sc), #slot " override order scalar < SSE < AVX2 < AVX-512");
 #define CHK2(slot, sc, sse) \
   __CPROVER_assert(g_dispatch.slot != NULL, #slot " is non-NULL"); \
-  __CPROVER_assert(g_dispatch.slot == (c->has_sse42 ? sse : sc), #slot " is SSE iff has_sse42 else scalar");
+  __CPROVER_assert(g_dispatch.slot == (SPEC_CPU_OK_SSE(c) ? sse : sc), #slot " is SSE iff has_sse42 else scalar");
   SLOTS4(CHK4)
   SLOTS2(CHK2)
-  if (c->has_avx512f) CQV_CANARY("avx512 level reachable");
-  if (!c->has_avx512f && c->has_avx2) CQV_CANARY("avx2 level reachable");
-  if (!c->has_avx512f && !c->has_avx2 && c->has_sse42) CQV_CANARY("sse level reachable");
-  if (!c->has_avx512f && !c->has_avx2 && !c->has_sse42) CQV_CANARY("scalar level reachable");
+  if (SPEC_CPU_OK_AVX512(c)) CQV_CANARY("avx512 level reachable");
+  if (c->has_avx512f && !c->has_avx512bw && c->has_avx2) CQV_CANARY("F-only CPU falls back to avx2");
+  if (!SPEC_CPU_OK_AVX512(c) && c->has_avx2) CQV_CANARY("avx2 level reachable");
+  if (!SPEC_CPU_OK_AVX512(c) && !c->has_avx2 && c->has_sse42) CQV_CANARY("sse level reachable");
+  if (!SPEC_CPU_OK_AVX512(c) && !c->has_avx2 && !c->has_sse42) CQV_CANARY("scalar level reachable");
   /* idempotence: flip the capabilities, call again: nothing changes, CPU not even consulted */
   carquet_simd_dispatch_t before = g_dispatch;
   int calls = cqv_cpu_calls;
